@@ -63,8 +63,12 @@ package storage
 //@ ghost floor (_ BitVec 64)
 //@ ghost floor_set Bool
 
+// last_get: the value returned by the most recent successful Get (used by the election lock, C14)
+//@ ghost last_get Slice
 //@ func KvStorage.Get(ctx, key) (val, err)
 //@   assumed
+//@   modifies ghost.last_get
+//@   ensures [last-get] err == nil ==> last_get == val
 //@   ensures [wf] err != nil ==> len(val) == 0
 //@   ensures [floor] is_compact_key(key) ==> ((err == ErrKeyNotFound) == !floor_set) && (err == nil ==> len(val) == 8 && be64_of(val) == floor)
 
